@@ -206,13 +206,35 @@ Proof. exact demo_cached. Qed.
 
 (** Every history of the single-entity core, Reset, filter (un)registration AND the batch
     operations (exchange family, SetRelation, RemoveEntities, NewBatch; unregistered or
-    registered filter arguments) that return normally keeps the refinement relation to the
+    registered filter arguments) that return normally, and creation with component values
+    (NewEntityWith, Builder.New / NewBatch of value builders), keeps the refinement relation to the
     abstract store, in which a batch call is the single-entity update applied to exactly the
     entities the filter selects IN THE ABSTRACT STORE ([a_sel], characterised by
     [C08_abstract_selection]). *)
 Theorem C08_abstract_selection : forall w A f, R w A ->
   forall e, e ∈ a_sel A f <-> (e ∈ as_live A /\ ent_matches w f e).
 Proof. exact a_sel_exact. Qed.
+
+(** Builder.NewBatch of a VALUE builder: NewBatch of the ids, then one Set per given value and
+    created entity (worlds: by definition, [C08_new_batch_with_split]; abstract stores:
+    [C08_batch_new_with]). *)
+From Arche Require Import Proofs.CreateWith Proofs.BatchCreateWith.
+Theorem C08_new_batch_with_split : forall w count b target,
+  new_entities_nn w count b target =
+  match new_entities_nn w count (b_novals b) target with
+  | Some (w3, tid, start, es) => Some (foldl (fun w e => set_comps w e (b_comps b)) w3 es, tid, start, es)
+  | None => None
+  end.
+Proof. exact new_entities_nn_split. Qed.
+
+Theorem C08_batch_new_with : forall w A count b target w' es evs,
+  R w A -> cache_ok w -> ilen w -> ids_reg A (b_ids b) ->
+  op_new_batch w count b target = (w', Ok (VEnts es), evs) ->
+  let a0 := mkA (new_mask (b_ids b)) (default ezero target) [] in
+  Z.of_nat (length es) = count /\ NoDup es /\ (forall e, e ∈ es -> e ∉ as_issued A) /\
+  R w' (a_sets_all (a_add_all A es a0) es (b_comps b)) /\ cache_ok w' /\ ilen w'.
+Proof. exact batch_new_with_refines. Qed.
+Print Assumptions C08_batch_new_with.
 
 Theorem C08_batch_step : forall w A o,
   inv3 w A -> op_pre4 w A o -> inv3 (fst (fst (step w o))) (astep_b w A o (snd (fst (step w o)))).
@@ -221,6 +243,18 @@ Proof. exact batch_step. Qed.
 Theorem C08_every_history_with_batches : forall ops w A,
   inv3 w A -> pre_run4 w A ops -> inv3 (run w ops) (arun4 w A ops).
 Proof. exact batch_history. Qed.
+
+Example C08_history_with_values_nonvacuous :
+  pre_run4 (world_init 2 2 64) a_init demo_bh_vals_ops /\
+  inv3 (run (world_init 2 2 64) demo_bh_vals_ops) (arun4 (world_init 2 2 64) a_init demo_bh_vals_ops) /\
+  let A := arun4 (world_init 2 2 64) a_init demo_bh_vals_ops in
+  option_map (fun a => aval a 0) (assoc_get (mkE 6 0) (as_ents A)) = Some 5%Z /\
+  option_map (fun a => aval a 2) (assoc_get (mkE 6 0) (as_ents A)) = Some 7%Z /\
+  option_map (fun a => aval a 0) (assoc_get (mkE 8 0) (as_ents A)) = Some 9%Z /\
+  option_map (fun a => aval a 2) (assoc_get (mkE 8 0) (as_ents A)) = Some 4%Z /\
+  option_map (fun a => aval a 0) (assoc_get (mkE 9 0) (as_ents A)) = Some 3%Z /\
+  option_map a_target (assoc_get (mkE 9 0) (as_ents A)) = Some (mkE 1 0).
+Proof. split; [exact demo_bh_vals_pre|]. split; [exact demo_bh_vals_refines|exact demo_bh_vals_result]. Qed.
 
 Example C08_history_nonvacuous :
   pre_run4 (world_init 2 2 64) a_init demo_bh_ops /\
